@@ -234,3 +234,31 @@ Proof.
     destruct (validate d); discriminate.
   - intros [G N]. rewrite G. destruct o; try reflexivity. exfalso. eapply N. reflexivity.
 Qed.
+
+(* ---- str(exception) ---- *)
+Definition msg_of (e : json) : option string :=
+  match e with
+  | JObj kv => match jlookup "message" kv with Some (JStr s) => Some s | _ => None end
+  | _ => None
+  end.
+
+Lemma carried_str e g : error_carried e g -> gerror_str g = msg_of e.
+Proof.
+  intros [kv [m [E [M [Hm _]]]]]. subst e. unfold gerror_str, msg_of. rewrite Hm, M. reflexivity.
+Qed.
+
+Lemma carried_strs l gs : Forall2 error_carried l gs -> map gerror_str gs = map msg_of l.
+Proof. induction 1; simpl; [reflexivity|]. rewrite (carried_str _ _ H), IHForall2. reflexivity. Qed.
+
+(* str() of the multi-error lists the message of every error of the response, in order, joined by "; " *)
+Lemma multi_str st kv e l : (200 <= st <= 299)%Z ->
+  jlookup "errors" kv = Some (JArr (e :: l)) -> forallb spec_error (e :: l) = true ->
+  outcome_str (get_data st (Some (JObj kv))) = join_opt (map msg_of (e :: l)).
+Proof.
+  intros H E S. destruct (errors_nonempty_multi st kv e l H E S) as [gs [G F]].
+  rewrite G. unfold outcome_str. rewrite (carried_strs _ _ F). reflexivity.
+Qed.
+
+Lemma http_str st b : (st < 200 \/ 299 < st)%Z ->
+  outcome_str (get_data st b) = Some (http_error_text ++ z_to_string st)%string.
+Proof. intro H. rewrite non2xx_http_error by exact H. reflexivity. Qed.
